@@ -390,6 +390,9 @@ func ewExec(r *core.Run, c ewCase) (*core.Fail, string) {
 		}
 		return nil, "refused-unsupported-type"
 	}
+	if o.Class != "ok" && lenient {
+		return nil, "refused"
+	}
 	if o.Class != "ok" {
 		if wrongSize || anyRefuse {
 			return nil, "refused-as-required"
